@@ -320,5 +320,15 @@ func AcceptBidToBuy1SatOrdinal2Dummies(ctx context.Context, vba *ValidateBid2DAr
 		return nil, err
 	}
 
+	// the bid was validated without the seller's unlocking script: make sure
+	// the completed transaction still pays the expected fee
+	for i, utxo := range vba.PreviousUTXOs {
+		tx.Inputs[i].PreviousTxSatoshis = utxo.Satoshis
+	}
+	enough, err := tx.IsFeePaidEnough(vba.ExpectedFQ)
+	if err != nil || !enough {
+		return nil, bt.ErrInsufficientFees
+	}
+
 	return tx, nil
 }
